@@ -6,6 +6,8 @@ import NdonnxVerif.Driver.Layout
 import NdonnxVerif.Driver.Build
 import NdonnxVerif.Driver.Broadcast
 import NdonnxVerif.Driver.Index
+import NdonnxVerif.Driver.IntArith
+import NdonnxVerif.Driver.Graph
 /-! Line-protocol driver: one request per line on stdin, one answer per line on stdout. -/
 open Ndx.Drv
 
@@ -15,6 +17,9 @@ def dispatch (line : String) : String :=
   | cmd :: args =>
     match cmd with
     | "bshape" => cmdBshape args
+    | "intop" => cmdIntOp args
+    | "gterm" => cmdGterm args
+    | "geval" => cmdGeval args
     | "iface" => cmdIface args
     | "roll" => cmdRoll args
     | "flip" => cmdFlip args
